@@ -86,6 +86,9 @@ func initPwKinds() {
 		{Name: "null", JSON: `null`, Sem: semNever, NoPass: true},
 		{Name: "plain-p1", JSON: `"p1"`, Sem: semEquals, Plain: "p1"},
 		{Name: "plain-p2", JSON: `"p2"`, Sem: semEquals, Plain: "p2"},
+		// a plain password with a two-byte character (the attempt list has a
+		// string of the same length that differs in the second byte of it)
+		{Name: "plain-utf8", JSON: `"caf\u00e9"`, Sem: semEquals, Plain: "caf\u00e9"},
 		{Name: "wildcard", JSON: `{"type":"wildcard"}`, Sem: semAlways},
 		{Name: "pbkdf2-p1", JSON: pb("sha-256", key), Sem: semEquals, Plain: "p1"},
 		{Name: "bcrypt-p1", JSON: fmt.Sprintf(`{"type":"bcrypt","key":%q}`, bcryptP1), Sem: semEquals, Plain: "p1"},
